@@ -226,8 +226,9 @@ func (j *J) ValueSexp() string {
 
 // minimal JSON reader (order, raw numbers, duplicate keys preserved); input is the engine's output
 type jparser struct {
-	s string
-	i int
+	s     string
+	i     int
+	enums bool // bare words are enum values (corpus defaults)
 }
 
 func (p *jparser) ws() {
@@ -356,6 +357,13 @@ func (p *jparser) val() (*J, bool) {
 		p.i += 5
 		return jBool(false), true
 	default:
+		if p.enums && (c == '_' || (c >= 'A' && c <= 'Z') || (c >= 'a' && c <= 'z')) {
+			st := p.i
+			for p.i < len(p.s) && (p.s[p.i] == '_' || (p.s[p.i] >= 'A' && p.s[p.i] <= 'Z') || (p.s[p.i] >= 'a' && p.s[p.i] <= 'z') || (p.s[p.i] >= '0' && p.s[p.i] <= '9')) {
+				p.i++
+			}
+			return jEnum(p.s[st:p.i]), true
+		}
 		st := p.i
 		for p.i < len(p.s) && strings.IndexByte("+-0123456789.eE", p.s[p.i]) >= 0 {
 			p.i++
@@ -1336,10 +1344,13 @@ func parseTy(s string) *Ty {
 }
 
 func parseDefault(s string) *J {
-	if j, ok := parseJSON(s); ok {
-		return j
+	p := &jparser{s: s, enums: true}
+	v, ok := p.val()
+	if !ok || p.i != len(p.s) {
+		fmt.Fprintln(os.Stderr, "corpus: bad default", s)
+		os.Exit(2)
 	}
-	return jEnum(s)
+	return v
 }
 
 // split on sep at bracket depth 0
